@@ -67,6 +67,12 @@ Definition pick_pos (t : nat) (o : op) (out : olist) : option nat :=
     match idx with [] => None | _ => Some (nth (Nat.modulo k (length idx)) idx 0%nat) end
   end.
 
+(* ring pool scenarios: a free operation with k >= 100 is the blocking variant: when there is nothing to
+   free the thread passes the harness point "op" again instead of skipping the operation (a consumer
+   that waits for the next block) *)
+Definition op_waits (o : op) : bool :=
+  match o with OpFree k | OpFreeOwn k => Nat.leb 100 k | OpAlloc => false end.
+
 (* note codes (R lines of the driver) *)
 Definition n_call : nat := 1%nat.    (* "a"          alloc called *)
 Definition n_blk : nat := 2%nat.     (* "r b<k>"     alloc returned block k *)
@@ -500,7 +506,9 @@ Definition rstep (P : params) (s : rsys) (t : nat) (ch : nat) : option (rsys * l
       else Some (r_body s t r [(n_call, 0%Z)])
     | o :: r =>
       match pick_pos t o (r_out s) with
-      | None => Some (r_set_thr s t {| r_pc := nxt_r r; r_script := r |}, LPlain [(n_skip, 0%Z)])
+      | None =>
+        if op_waits o then Some (r_set_thr s t {| r_pc := RYield; r_script := o :: r |}, LPlain [])
+        else Some (r_set_thr s t {| r_pc := nxt_r r; r_script := r |}, LPlain [(n_skip, 0%Z)])
       | Some j =>
         let b := fst (nth j (r_out s) (0%nat, 0%nat)) in
         Some (r_set_thr (r_set_harness s (remove_nth j (r_out s)) (r_dups s)) t {| r_pc := RStore b; r_script := r |},
